@@ -107,7 +107,7 @@ pub mod tr0 {
       r43(1, 2, 2) <-- r7(1, 2, 2);
       r44(v0, v1, v2) <-- r45(v0, v1, v2), r7(v0, v1, v2);
       r46(v0, v1, v2) <-- r7(v0, v1, v2), r45(v0, v1, v2);
-      r47(v1, v0, v1) <-- r25(3, 3, v0) if ((*v0) != 6) let v1 = ((*v0) + 0), r7(0, ((*v0) + 1), v2);
+      r47(v1, v0, v1) <-- r25(3, 3, v0) if ((*v0) != 6) let v1 = ((*v0) + 0), r7(0, ((*v0) + 1), v2), if (v1 <= 6);
       r7(v0, v1, v2) <-- r47(v0, v1, v2);
       r7(v1, ((*v0) + 1), v2) <-- r7(v0, 1, v1), r31(v0, v2, v1), if ((*v0) < 6);
    }
